@@ -110,7 +110,7 @@ OpWidth(mn, ops) ==
 ImmWidth(mn, ops) == IF mn \in ImmFollowsOperand THEN OpWidth(mn, ops) ELSE 0
 \* ---------------------------------------------------------------- presentation record
 Pres0 == [syn |-> "intel", rc |-> "lower", kc |-> "upper", sp |-> "canon", nb |-> "dec", isg |-> FALSE, dsg |-> FALSE,
-          ord |-> "bid", dout |-> FALSE, pct |-> FALSE, st0 |-> "paren", dsp |-> "one"]
+          ord |-> "bid", dout |-> FALSE, pct |-> FALSE, st0 |-> "paren", dsp |-> "one", dz |-> FALSE]
 PresAtt0 == [Pres0 EXCEPT !.syn = "att", !.pct = TRUE]
 Style(p) == [rc |-> p.rc, kc |-> p.kc, sp |-> p.sp]
 \* ---------------------------------------------------------------- layout: terms of a memory operand
@@ -120,11 +120,13 @@ SymTerm(s) == [t |-> "sym", neg |-> FALSE, r |-> "", sc |-> 0, num |-> MkNum(FAL
 DispNum(o, p) == LET neg == Msb(o.d, 32) = 1 IN
                  IF p.dsg /\ neg THEN MkNum(FALSE, o.d, p.nb) ELSE CanonNum(o.d, neg, p.nb)
 NeedDisp(o) == ~IsZero(o.d) \/ (o.b = -1 /\ o.i = -1 /\ o.sym = "")
+\* presentation dimension dz: a zero displacement next to a register is written explicitly ([eax+0], 0[eax], 0(%eax))
+NeedDispP(o, p) == NeedDisp(o) \/ (p.dz /\ o.sym = "" /\ (o.b # -1 \/ o.i # -1))
 MemB(o) == IF o.b # -1 THEN <<RegTerm(R32[o.b + 1], 0)>> ELSE <<>>
 MemI(o) == IF o.i # -1 THEN <<RegTerm(R32[o.i + 1], IF o.sc = 1 /\ o.b # -1 THEN 0 ELSE o.sc)>> ELSE <<>>
 MemS(o) == IF o.sym # "" THEN <<SymTerm(o.sym)>> ELSE <<>>
 \* the displacement as one number, or as constant arithmetic:  d  =  (d+4) - 4  ("pm")  =  -4 + (d+4)  ("mp")
-MemD(o, p) == IF ~NeedDisp(o) THEN <<>>
+MemD(o, p) == IF ~NeedDispP(o, p) THEN <<>>
               ELSE IF p.dsp = "one" THEN <<NumTerm(DispNum(o, p))>>
               ELSE LET hi == Add(o.d, FromNat(4, 32), 32)
                        a == NumTerm(CanonNum(hi, Msb(hi, 32) = 1, p.nb))
@@ -135,7 +137,7 @@ RolesFixed(o) == o.b # -1 /\ o.i # -1 /\ ~(o.sc = 1)
 RegTerms(o, p) == IF p.ord = "ibd" /\ RolesFixed(o) THEN MemI(o) \o MemB(o) ELSE MemB(o) \o MemI(o)
 IntelMem(o, p) ==
    LET regs == RegTerms(o, p)
-       outside == p.dout /\ regs # <<>> /\ (NeedDisp(o) \/ o.sym # "")
+       outside == p.dout /\ regs # <<>> /\ (NeedDispP(o, p) \/ o.sym # "")
        inner == IF outside THEN regs
                 ELSE IF p.ord = "dbi" THEN MemS(o) \o MemD(o, p) \o regs
                 ELSE IF p.ord = "bdi" /\ Len(regs) = 2 THEN <<regs[1]>> \o MemS(o) \o MemD(o, p) \o <<regs[2]>>
@@ -143,8 +145,8 @@ IntelMem(o, p) ==
    IN [k |-> "mem", kw |-> KwOf(o.sz), seg |-> o.seg,
        out |-> IF outside THEN MemD(o, p) \o MemS(o) ELSE <<>>, terms |-> inner]
 AttMem(o, p, star) ==
-   [k |-> "amem", seg |-> o.seg, star |-> star, sym |-> o.sym, hasd |-> NeedDisp(o),
-    d |-> IF NeedDisp(o) THEN DispNum(o, p) ELSE MkNum(FALSE, Z4, "dec"),
+   [k |-> "amem", seg |-> o.seg, star |-> star, sym |-> o.sym, hasd |-> NeedDispP(o, p),
+    d |-> IF NeedDispP(o, p) THEN DispNum(o, p) ELSE MkNum(FALSE, Z4, "dec"),
     base |-> IF o.b # -1 THEN R32[o.b + 1] ELSE "", index |-> IF o.i # -1 THEN R32[o.i + 1] ELSE "",
     sc |-> IF o.i = -1 THEN 0 ELSE IF o.sc = 1 /\ o.b # -1 THEN 0 ELSE o.sc]
 \* ---------------------------------------------------------------- layout: operands
